@@ -29,7 +29,11 @@ namespace c02 {
 
 inline size_t uvarint_len(uint64_t v) { size_t n = 1; while (v >= 0x80) { v >>= 7; ++n; } return n; }
 
-inline bool in_window(size_t n) { return n >= 244 && n <= 256; }
+// The table stores pairs of at most 250 characters (both strings together; osmconvert and the
+// reader agree on that reading). Originally every pair of 244..256 characters was kept out of the
+// files; now only the exact boundary is used deliberately (see boundary_pairs in c02_decode.cpp).
+inline bool& allow_boundary_pairs() { static bool b = false; return b; }
+inline bool in_window(size_t n) { return !allow_boundary_pairs() && n >= 244 && n <= 256; }
 
 // restrict a data set to what o5m (o5c == false) or o5c can carry
 inline void fit_o5m(std::vector<Obj>& D, bool o5c) {
